@@ -8,6 +8,8 @@ MON = ["unique", "idempotent", "range", "agree"]
 # epoch (lease) allocator: Bng.LeaseSpec adds expiry/reclaimed to the pool monitor
 MON_EPOCH = ["unique", "idempotent", "range", "agree"]
 COMPS = [
+    # DistributedAllocator: uniqueness over TIME (leases kept alive, restarts, replication) judged from its answers
+    V.Component("dist", monitors=["unique", "idempotent", "range"]),
     # PoolAllocator (store.go): the bitmap allocator behind a persisting store (production path of NewLocalAllocator, dhcpv6)
     V.Component("poolalloc", monitors=MON),
     V.Component("epoch", monitors=MON_EPOCH, ignore_diff_ops=["stats"]),
